@@ -36,11 +36,16 @@ def _gen_struct(r, depth, counter, allow_call=True):
     c = r.random()
     if depth >= 3 or c < 0.45:
         counter[0] += 1
-        kind = r.randrange(6)
+        kind = r.randrange(9)
         if kind == 0:
             return {'t': 'leaf', 'v': 1000 + counter[0]}
         if kind == 1:
             return {'t': 'leaf', 'v': counter[0] + 0.5}
+        if kind == 2:
+            # falsy values: an evaluated target that is falsy must still be the very same object for every consumer
+            return {'t': 'leaf', 'v': r.choice([0, 0.0, '', False, None])}
+        if kind == 3:
+            return {'t': r.choice(['map', 'list']), 'items': []}      # empty containers are distinct objects: identity is observable
         return {'t': 'leaf', 'v': f'token-number-{counter[0]}-of-this-config'}
     if c < 0.70:
         n = r.randrange(1, 4)
